@@ -161,6 +161,7 @@ def to_val(v):
     if isinstance(v, int): return Val.intv(v)
     if isinstance(v, str): return STR.get(v)
     if is_expr(v): return v
+    if isinstance(v, PyCallable): return Val.opq(Val.s(STR.get('<callable ' + v.name + '>')))
     raise Unsupported(f"to_val {v!r}")
 def truthy(v):
     if isinstance(v, PyBool): return v.e
@@ -370,7 +371,7 @@ class Exec:
         return self.ev(s.value, st, lambda st2, v: self.assign(s.target, v, st2, k, K), K)
     def st_AugAssign(self, s, st, k, K):
         return self.ev(ast.BinOp(s.target, s.op, s.value), st, lambda st2, v: self.assign(s.target, v, st2, k, K), K)
-    def st_If(self, s, st, k, K):
+    def _st_If_raw(self, s, st, k, K):
         return self.ev(s.test, st, lambda st2, v: self.branch(st2, truthy(v), lambda a: self.block(s.body, a, k, K), lambda b: self.block(s.orelse, b, k, K)), K)
     def st_Return(self, s, st, k, K):
         if s.value is None: return K['ret'](st, None)
@@ -393,7 +394,7 @@ class Exec:
         for n in names:
             if n.split('.')[-1] not in CLS.ids: raise Unsupported("except clause names an unregistered class: " + n)
         return Or(*[CLS.sub_expr(cid, n.split('.')[-1]) for n in names])
-    def st_Try(self, s, st, k, K):
+    def _st_Try_raw(self, s, st, k, K):
         def handler(st2, exc):
             cid = st2.heap.cls_of[Val.a(exc)]
             def try_h(i, st3):
@@ -420,9 +421,22 @@ class Exec:
                 if nm in K: K_out[nm] = (lambda f: (lambda st2: self.block(fin, st2, f, K)))(K[nm])
             inner = ast.Try(body=s.body, handlers=s.handlers, orelse=[], finalbody=[])
             if not s.handlers: return self.block(s.body, st, k_f, K_out)
-            return self.st_Try(inner, st, k_f, K_out)
+            return self._st_Try_raw(inner, st, k_f, K_out)
         K2 = dict(K); K2['exc'] = handler
         return self.block(s.body, st, k, K2)
+
+    # ---------- path merging (opt-in per unit: self.merge = True). The normal continuation of an `if` / `try` statement is entered
+    # once with the join of all states that reach it (values become ite-terms over the branch conditions); exceptional/return/break
+    # continuations are never merged. If some value cannot be merged the states continue separately (always sound).
+    merge = False
+    def st_If(self, s, st, k, K):
+        if not self.merge: return self._st_If_raw(s, st, k, K)
+        out = []; self._st_If_raw(s, st, out.append, K)
+        for m in merge_states(out): k(m)
+    def st_Try(self, s, st, k, K):
+        if not self.merge: return self._st_Try_raw(s, st, k, K)
+        out = []; self._st_Try_raw(s, st, out.append, K)
+        for m in merge_states(out): k(m)
     def st_For(self, s, st, k, K):
         h = self.handlers.get('@for')
         if h is None: raise Unsupported("for loop without an invariant: " + ast.unparse(s.iter))
@@ -449,6 +463,62 @@ class Exec:
         K = {'ret': on_ret, 'exc': on_exc}
         return self.block(fdef.body, st, lambda st2: on_ret(st2, None), K)
 
+
+
+class MergeFail(Exception): pass
+def _merge_vals(conds, vals):
+    """ite-join of python-side values under mutually exclusive guards `conds`"""
+    v0 = vals[0]
+    if all(v is v0 for v in vals): return v0
+    if all(is_expr(v) for v in vals) and all(v.sort() == v0.sort() for v in vals) and all(v.eq(v0) for v in vals): return v0
+    def ite(zs):
+        r = zs[-1]
+        for c, z in zip(reversed(conds[:-1]), reversed(zs[:-1])): r = If(c, z, r)
+        return r
+    if all(isinstance(v, dict) for v in vals) and all(set(v) == set(v0) for v in vals):
+        return {kx: _merge_vals(conds, [v[kx] for v in vals]) for kx in v0}
+    for cls in (PyList, PyDict):
+        if all(isinstance(v, cls) for v in vals): return cls(ite([v.addr if is_expr(v.addr) else IntVal(v.addr) for v in vals]))
+    if all(isinstance(v, PyObj) for v in vals): return PyObj(ite([v.addr if is_expr(v.addr) else IntVal(v.addr) for v in vals]), v0.kind if all(v.kind == v0.kind for v in vals) else None)
+    if all(isinstance(v, PyTuple) for v in vals) and all(len(v.items) == len(v0.items) for v in vals):
+        return PyTuple([_merge_vals(conds, [v.items[i] for v in vals]) for i in range(len(v0.items))])
+    if all(isinstance(v, PyBool) for v in vals): return PyBool(ite([v.e for v in vals]))
+    if all(isinstance(v, PyInt) for v in vals): return PyInt(ite([v.e for v in vals]))
+    if all(is_expr(v) and not v.sort() == Val for v in vals) and all(v.sort() == v0.sort() for v in vals): return ite(list(vals))
+    if any(isinstance(v, (Tok, PyCallable, tuple, list, set)) or (isinstance(v, str) and v.startswith(('CLS:', 'TZ:'))) for v in vals): raise MergeFail()
+    try: zs = [to_val(v) for v in vals]
+    except Unsupported: raise MergeFail()
+    if not all(z.sort() == Val for z in zs): raise MergeFail()
+    return ite(zs)
+def merge_states(states):
+    if len(states) <= 1: return states
+    try:
+        n = 0; pcs = [s.pc for s in states]
+        while all(len(p) > n for p in pcs) and all(p[n] is pcs[0][n] or p[n].eq(pcs[0][n]) for p in pcs): n += 1
+        conds = [And(*p[n:]) if len(p) > n else BoolVal(True) for p in pcs]
+        m = State(); m.kinds = states[0].kinds
+        m.pc = list(pcs[0][:n]) + [Or(*conds)]
+        seen = set(); m.facts = []
+        for s in states:
+            for f in s.facts:
+                if f.get_id() not in seen: seen.add(f.get_id()); m.facts.append(f)
+        keys = set().union(*[set(s.env) for s in states])
+        m.env = {}
+        for kx in keys:
+            if not all(kx in s.env for s in states): continue        # defined on some branches only: dropped (a later use is Unsupported, not unsound)
+            m.env[kx] = _merge_vals(conds, [s.env[kx] for s in states])
+        gk = set().union(*[set(s.ghost) for s in states])
+        if not all(set(s.ghost) == gk for s in states): raise MergeFail()
+        m.ghost = {kx: _merge_vals(conds, [s.ghost[kx] for s in states]) for kx in gk}
+        h = states[0].heap.copy()
+        for attr in ('llen', 'litem', 'dhas', 'dval', 'cls_of', 'next'):
+            setattr(h, attr, _merge_vals(conds, [getattr(s.heap, attr) for s in states]))
+        fk = set().union(*[set(s.heap.fld) for s in states])
+        h.fld = {fx: _merge_vals(conds, [s.heap.field(fx) for s in states]) for fx in fk}
+        m.heap = h
+        return [m]
+    except MergeFail:
+        return states
 
 def alloc(st):
     st.heap = st.heap.copy(); a = st.heap.next; st.heap.next = a + 1; return a
@@ -521,11 +591,19 @@ def _run_cvc5(txt, timeout_ms):
         return 'unknown'
 
 def _solve_smt2(job):
-    idx, full, qf, timeout = job
+    idx, full, qf, timeout, kind = job
     import z3
     t0 = time.time()
     def run(txt, to):
         sv = z3.Solver(); sv.set('timeout', to); sv.from_string(txt); return str(sv.check())
+    if kind == 'mustfail':
+        # vacuity guard: hypotheses must be satisfiable. quantifier-free part first; the quantified facts get a short budget
+        # (sat/unknown = not shown inconsistent; only a definite unsat marks the context vacuous)
+        r = run(qf, timeout)
+        if r != 'unsat' and full != qf:
+            r2 = run(full, 3000)
+            if r2 == 'unsat': r = 'unsat'
+        return idx, r, 'z3', int((time.time() - t0) * 1000)
     r = run(full, timeout); solver = 'z3'
     if r == 'unknown':
         r2 = run(qf, timeout)
@@ -573,10 +651,10 @@ def discharge(timeout=10000, procs=16, verbose=False):
     for ob in OBL:
         ng = Not(skolem(ob.goal))
         s = Solver(); s.add(*ob.hyps); s.add(ng); full = s.to_smt2()
-        key = hashlib.sha1(full.encode()).hexdigest(); keyof.append(key)
+        key = hashlib.sha1((ob.kind + full).encode()).hexdigest(); keyof.append(key)
         if key in jobs: continue
         s2 = Solver(); s2.add(*[h for h in ob.hyps if not is_quantifier(h)]); s2.add(ng)
-        jobs[key] = (key, full, s2.to_smt2(), timeout)
+        jobs[key] = (key, full, s2.to_smt2(), timeout, ob.kind)
     t1 = time.time()
     if jobs:
         with mp.Pool(min(procs, max(1, len(jobs)))) as pool: out = pool.map(_solve_smt2, list(jobs.values()), chunksize=max(1, min(8, len(jobs) // (procs * 2) or 1)))
